@@ -128,6 +128,22 @@ Proof.
   cbn [length all_cols]. apply in_flat_map. exists i. split; [apply in_seq; lia|]. apply in_map. now apply IH.
 Qed.
 
+(** ... and a column of [k] empty cells followed by in-range levels is one of [all_cols_from] *)
+Lemma in_all_cols_from n : forall k (c : list cell), k <= length c ->
+  (forall j, j < k -> nth j c None = None) ->
+  (forall j, k <= j < length c -> exists i, i < n /\ nth j c None = Some i) ->
+  In c (all_cols_from n (length c) k).
+Proof.
+  induction k as [|k IH]; intros c Hk Hn Hs.
+  - cbn [all_cols_from]. apply in_all_cols. apply Forall_forall. intros x Hx.
+    destruct (In_nth c x None Hx) as (j & Hj & <-). destruct (Hs j ltac:(lia)) as (i & Hi & E). exists i. now split.
+  - destruct c as [|x c]; [cbn in Hk; lia|]. cbn [length all_cols_from].
+    pose proof (Hn 0 ltac:(lia)) as H0. cbn [nth] in H0. subst x. apply in_map. apply IH.
+    + cbn [length] in Hk. lia.
+    + intros j Hj. apply (Hn (S j)). lia.
+    + intros j Hj. apply (Hs (S j)). cbn [length]. lia.
+Qed.
+
 (** a filter of length one: [find] returns its only member *)
 Lemma find_only (p : nat -> bool) n l :
   length (filter p (seq 0 n)) = 1 -> l < n -> p l = true -> find p (seq 0 n) = Some l.
@@ -181,8 +197,8 @@ Qed.
 Lemma implied_facts f : f < nf fb -> isact fb f = false ->
   exists fd w, nth_error (fl_design fb) f = Some fd /\ ff_window fd = Some w /\
                Forall (fun d => sact fb d = true) (win_deps w) /\
-               0 < win_width w /\ 0 < win_stride w /\ win_width w - 1 <= win_start w /\
-               (forall args, In args (all_args fb w) ->
+               0 < win_width w /\ 0 < win_stride w /\
+               (forall k args, k <= win_width w - 1 - win_start w -> In args (all_args_from fb w k) ->
                   length (filter (fun l => accepts (dwin fd w) l args) (seq 0 (nlevels fb f))) = 1).
 Proof.
   intros Hf Ha. destruct (nth_error (fl_design fb) f) as [fd|] eqn:Efd.
@@ -190,13 +206,63 @@ Proof.
   pose proof (f1_implied fb Facts f fd Efd) as Hi. unfold implied_ok in Hi. rewrite Ha in Hi. cbn [orb] in Hi.
   apply andb_true_iff in Hi. destruct Hi as [Hw Htot]. unfold factor_impl_f1 in Hw.
   destruct (ff_window fd) as [w|] eqn:Ew; [|rewrite andb_false_r in Hw; discriminate].
-  rewrite !andb_true_iff in Hw. destruct Hw as [_ [[W1 W2] W3]].
-  apply Nat.ltb_lt in W1, W2. apply Nat.leb_le in W3.
-  exists fd, w. split; [reflexivity|]. split; [exact Ew|]. split; [|split; [exact W1|split; [exact W2|split; [exact W3|]]]].
+  rewrite !andb_true_iff in Hw. destruct Hw as [_ [W1 W2]].
+  apply Nat.ltb_lt in W1, W2.
+  exists fd, w. split; [reflexivity|]. split; [exact Ew|]. split; [|split; [exact W1|split; [exact W2|]]].
   - destruct (f1_tables fb Facts f fd Efd) as [Htab _]. unfold tables_ok in Htab. rewrite Ew in Htab.
     apply andb_true_iff in Htab. destruct Htab as [Hd _]. rewrite forallb_forall in Hd. now apply Forall_forall.
-  - intros args Hin. unfold tables_total in Htot. rewrite Ew, forallb_forall in Htot.
+  - intros k args Hk Hin. unfold tables_total in Htot. rewrite Ew, forallb_forall in Htot.
+    specialize (Htot k ltac:(apply in_seq; lia)). rewrite forallb_forall in Htot.
     rewrite (nlevels_at f fd Efd). apply Nat.eqb_eq. now apply Htot.
+Qed.
+
+(** the window of an unsustained factor, unfolded: the cells [width - 1 - j] trials back, none before the first trial *)
+Lemma window_args_su1 (q : tseq) f fd w t :
+  sustain_of fb f = 1 -> ff_window fd = Some w ->
+  window_args q (code_factor fb f fd) (dwin fd w) t =
+  map (fun d => map (fun j => if win_width w - 1 - j <=? t then get_cell q d (t - (win_width w - 1 - j)) else None)
+                    (seq 0 (win_width w))) (win_deps w).
+Proof.
+  intros Hsu Ew. unfold window_args. cbn [f_sustain code_factor w_deps w_width dwin]. rewrite Hsu, Nat.div_1_r, Nat.mul_1_r.
+  apply map_ext. intros d. apply map_ext. intros j. now rewrite Nat.mul_1_r.
+Qed.
+
+(** the window only depends on the earlier-or-equal cells of the depended-on factors *)
+Lemma window_ext_su1 (q q' : tseq) f fd w t :
+  sustain_of fb f = 1 -> ff_window fd = Some w ->
+  (forall d t', In d (win_deps w) -> t' <= t -> get_cell q d t' = get_cell q' d t') ->
+  window_args q (code_factor fb f fd) (dwin fd w) t = window_args q' (code_factor fb f fd) (dwin fd w) t.
+Proof.
+  intros Hsu Ew H. rewrite !(window_args_su1 _ f fd w t Hsu Ew).
+  apply map_ext_in. intros d Hd. apply map_ext. intros j.
+  destruct (win_width w - 1 - j <=? t); [|reflexivity]. apply H; [exact Hd|lia].
+Qed.
+
+(** if the depended-on cells are levels, the window at a trial where the factor applies is
+    one of the tuples of [all_args_from] for the number of trials missing before the first *)
+Lemma window_in_su1 (q : tseq) f fd w t :
+  sustain_of fb f = 1 -> applies (code_factor fb f fd) t = true -> ff_window fd = Some w -> 0 < win_width w ->
+  (forall d t', In d (win_deps w) -> t' <= t -> exists x, x < nlevels fb d /\ get_cell q d t' = Some x) ->
+  exists k, k <= win_width w - 1 - win_start w /\
+            In (window_args q (code_factor fb f fd) (dwin fd w) t) (all_args_from fb w k).
+Proof.
+  intros Hsu Hap Ew W1 H. rewrite (window_args_su1 q f fd w t Hsu Ew).
+  unfold applies in Hap. cbn [f_derived code_factor] in Hap. rewrite Ew in Hap.
+  cbn [f_sustain code_factor w_start w_stride] in Hap. rewrite Hsu, Nat.div_1_r in Hap.
+  apply andb_true_iff in Hap. destruct Hap as [Hst _]. apply Nat.leb_le in Hst.
+  exists (win_width w - 1 - t). split; [lia|]. unfold all_args_from.
+  apply in_product_lists. intros d Hd.
+  set (c := map (fun j => if win_width w - 1 - j <=? t then get_cell q d (t - (win_width w - 1 - j)) else None) (seq 0 (win_width w))).
+  assert (Hlen : length c = win_width w) by (unfold c; now rewrite map_length, seq_length).
+  rewrite <- Hlen at 1. apply in_all_cols_from.
+  - rewrite Hlen. lia.
+  - intros j Hj. unfold c. rewrite (nth_indep _ None ((fun j0 => if win_width w - 1 - j0 <=? t then get_cell q d (t - (win_width w - 1 - j0)) else None) 0)) by (rewrite map_length, seq_length; lia).
+    rewrite (map_nth (fun j0 => if win_width w - 1 - j0 <=? t then get_cell q d (t - (win_width w - 1 - j0)) else None)), seq_nth by lia.
+    cbn [Nat.add]. replace (win_width w - 1 - j <=? t) with false by (symmetry; apply Nat.leb_gt; lia). reflexivity.
+  - intros j Hj. rewrite Hlen in Hj. unfold c. rewrite (nth_indep _ None ((fun j0 => if win_width w - 1 - j0 <=? t then get_cell q d (t - (win_width w - 1 - j0)) else None) 0)) by (rewrite map_length, seq_length; lia).
+    rewrite (map_nth (fun j0 => if win_width w - 1 - j0 <=? t then get_cell q d (t - (win_width w - 1 - j0)) else None)), seq_nth by lia.
+    cbn [Nat.add]. replace (win_width w - 1 - j <=? t) with true by (symmetry; apply Nat.leb_le; lia).
+    destruct (H d (t - (win_width w - 1 - j)) Hd ltac:(lia)) as (x & Hx & Ex). exists x. now split.
 Qed.
 
 (** the window of an implied factor at a trial where it applies reads only
@@ -258,16 +324,17 @@ Qed.
 Lemma pcons_cell_impl s t f : Pcons fb s -> t < T fb -> f < nf fb -> isact fb f = false ->
   if appl f t then exists l, l < nlevels fb f /\ cell_impl s t f = Some l else cell_impl s t f = None.
 Proof.
-  intros H Ht Hf Ha. destruct (implied_facts f Hf Ha) as (fd & w & Efd & Ew & Hdeps & W1 & W2 & W3 & Htot).
+  intros H Ht Hf Ha. destruct (implied_facts f Hf Ha) as (fd & w & Efd & Ew & Hdeps & W1 & W2 & Htot).
   unfold appl, cell_impl, factor_at. rewrite Efd, Ew.
   destruct (applies (code_factor fb f fd) t) eqn:Hap; [|reflexivity].
-  assert (Hin : In (window_args (dec_act s) (code_factor fb f fd) (dwin fd w) t) (all_args fb w)).
-  { apply impl_window_in; try assumption; [now apply impl_sustain|]. intros d t' Hd Ht'.
+  assert (Hin : exists k, k <= win_width w - 1 - win_start w /\
+                  In (window_args (dec_act s) (code_factor fb f fd) (dwin fd w) t) (all_args_from fb w k)).
+  { apply window_in_su1; try assumption; [now apply impl_sustain|]. intros d t' Hd Ht'.
     pose proof (proj1 (Forall_forall _ _) Hdeps d Hd) as Hds. cbv beta in Hds.
     destruct (sact_lappl d t' Hds) as [Hda Hdl].
     rewrite (dec_act_cell s t' d ltac:(lia) (f1_act_lt fb HF1 d Hda)).
     destruct (pcons_cell_act s t' d H ltac:(lia) Hda Hdl) as (i & Hi & Ei & _). now exists i. }
-  specialize (Htot _ Hin).
+  destruct Hin as (k & Hk & Hin). specialize (Htot k _ Hk Hin).
   destruct (find (fun l => accepts (dwin fd w) l (window_args (dec_act s) (code_factor fb f fd) (dwin fd w) t))
                  (seq 0 (nlevels fb f))) as [l|] eqn:El.
   - exists l. split; [|reflexivity]. now apply find_in_range in El.
